@@ -62,10 +62,18 @@ def run_obs(sc, tcases, truns, timeout=1800, tag="obs", chunk=250000):
         return [], r
     total = TlcResult(); total.ok = True
     bad = []
-    for k in range(0, len(truns), chunk):
-        part = truns[k:k + chunk]
-        sd = write_inputs(sc, "spec-%s-%d" % (tag, k // chunk), tcases, part)
-        r = tlc(sc, "ParserObs", cfg="ParserObs.cfg", cwd=sd, timeout=timeout)
+    # chunks bounded by number of runs and by serialised size (TLC holds the whole JSON value as TLA+ records)
+    bounds, k0, w = [], 0, 0
+    for i, r_ in enumerate(truns):
+        w += 60 + sum(40 + 30 * len(e.get("args") or []) + len(json.dumps(e.get("v"))) // 2 for e in r_.get("events") or [])
+        if i + 1 - k0 >= chunk or w >= 30_000_000:
+            bounds.append((k0, i + 1)); k0, w = i + 1, 0
+    if k0 < len(truns):
+        bounds.append((k0, len(truns)))
+    for n_, (k, k1) in enumerate(bounds):
+        part = truns[k:k1]
+        sd = write_inputs(sc, "spec-%s-%d" % (tag, n_), tcases, part)
+        r = tlc(sc, "ParserObs", cfg="ParserObs.cfg", cwd=sd, timeout=timeout, heap="12g")
         tlc_must(r, "ParserObs")
         if r.violation:
             raise Infra("ParserObs: unexpected TLC-level violation: " + r.violation)
